@@ -47,13 +47,20 @@ class import_mirrors_text:
     spine id of the spine, literal cell text; a line with surplus cells is rejected with an exception."""
     def inputs(g):
         score, rng = doc_inputs(g)
-        return {'score': score, 'extra_row': rng.randrange(len(score.rows)), 'blank': rng.random() < 0.3}
+        return {'score': score, 'extra_row': rng.randrange(len(score.rows)), 'blank': rng.random() < 0.3, 'via_file': rng.random() < 0.4}
 
-    def post_tree_mirrors_grid(score, blank):
+    def post_tree_mirrors_grid(score, blank, via_file):
         text = score.text()
         if blank:
             text = text.replace('\n', '\n\n', 2)        # empty lines are skipped
-        doc, errs = kp.loads(text)
+        if via_file:
+            with tempfile.TemporaryDirectory() as d:
+                p = os.path.join(d, 'score.krn')
+                with open(p, 'w', encoding='utf-8', newline='') as f:
+                    f.write(text)
+                doc, errs = kp.load(p)
+        else:
+            doc, errs = kp.loads(text)
         stages = doc.tree.stages
         if len(stages) != len(score.rows) + 1:
             return False
@@ -168,13 +175,24 @@ class normalised_export_fixed_point:
     position or repetition of note signifiers."""
     def inputs(g):
         score, rng = doc_inputs(g)
-        return {'score': score, 'variant': rescatter(score, rng)}
+        return {'score': score, 'variant': rescatter(score, rng), 'wild': gen_score(rng, compound=True, chords=False).text()}
 
     def post_idempotent(score):
         doc, errs = kp.loads(score.text())
         a = kp.dumps(doc)
         d2, e2 = kp.loads(a)
         return errs == [] and e2 == [] and kp.dumps(d2) == a
+
+    def post_idempotent_with_combining_signifiers(wild):
+        # every document that imports without errors (also with signifiers that combine with their neighbours: &( Ww [y yy L> ...)
+        doc, errs = kp.loads(wild)
+        if errs:
+            return True
+        # (the extended round trip of such documents is the known finding extended_round_trip_combining_signifiers below)
+        a = kp.dumps(doc)
+        d2, e2 = kp.loads(a)
+        return e2 == [] and kp.dumps(d2) == a
+
 
     def post_extended_round_trip(score):
         # the separator characters must not occur inside non-note cells (the stripped text is ambiguous there): known limit,
@@ -190,6 +208,35 @@ class normalised_export_fixed_point:
         d1, _ = kp.loads(score.text())
         d2, e2 = kp.loads(variant)
         return e2 == [] and kp.dumps(d1) == kp.dumps(d2)
+
+
+@contract(None, props=['C01'], bounded='one recorded score (known finding of C01)')
+class extended_round_trip_combining_signifiers:
+    """Known finding (C01): two signifiers that the extended encoding keeps apart can merge into one when the separators are removed
+    ('yy4cy' -> '4@c·y·yy' -> '4cyyy' -> '4@c·yyy'), so the extended round trip is not the identity for such notes."""
+    def inputs(g):
+        return {'text': g.choice('text', ['**kern\nyy4cy\n*-\n'])}
+
+    def post_extended_round_trip(text):
+        doc, errs = kp.loads(text)
+        e = kp.dumps(doc, encoding=kp.Encoding.eKern)
+        d2, e2 = kp.loads(kp.get_kern_from_ekern(e))
+        return e2 == [] and kp.dumps(d2, encoding=kp.Encoding.eKern) == e
+
+
+@contract(None, props=['C01'], bounded='one recorded score (known finding of C01)')
+class chord_signifier_read_as_display_suffix:
+    """Known finding (C01): the notes of a chord share one signifier list, so a signifier of a later note is also exported on an earlier
+    note; when that note has an accidental and the character is one the grammar also reads as an accidental-display suffix
+    (x X i I j Z y Y) it is re-read as part of the accidental, and the export grows on every round trip ('4cn 4ey' -> '4cny 4ey' -> '4cnyy 4ey')."""
+    def inputs(g):
+        return {'text': g.choice('text', ['**kern\n4cn 4ey\n*-\n'])}
+
+    def post_idempotent(text):
+        doc, errs = kp.loads(text)
+        a = kp.dumps(doc)
+        d2, e2 = kp.loads(a)
+        return e2 == [] and kp.dumps(d2) == a
 
 
 # ================================================================================================================ C04
